@@ -134,6 +134,11 @@ def curated():
                                          "relations": [["conflict", "clear", "dec", "U"], ["conflict", "clear", "inc", "U"]]}
     D["several_relations_one_transaction"] = {"items": [M("A", iw=0), T("T0", [call("A")]), T("T1"), T("T2"), T("T3")],
                                               "relations": [["conflict", "T3", "T2", "U"], ["conflict", "T3", "A", "L"], ["conflict", "T3", "T1", "R"]]}
+    # add_conflict(a, b) where one caller reaches both ends in exclusive alternatives and another caller reaches only the
+    # (nonexclusive) second end: the two callers still conflict; both declaration directions, with and without priority
+    for i, (x, y, pr) in enumerate([("A", "B", "U"), ("B", "A", "U"), ("A", "B", "L"), ("B", "A", "L")]):
+        D[f"conflict_one_caller_reaches_both_ends_{i}"] = {"items": [M("A", iw=0), M("B", iw=0, ow=0, nonexclusive=True), T("T0", [If([call("A")], els=[call("B")])]), T("T1", [call("B")]),
+                                                                     T("T2", [call("A", en=True)])], "relations": [["conflict", x, y, pr]]}
     # an FSM nested in a state of another FSM, followed by further outer states (with every kind of statement, calls and a nested body)
     D["nested_fsm"] = {"items": [M("M0", iw=1), M("M1", iw=0, ow=0),
                                  T("T0", [Fsm([Fsm(ALLW + [call("M0")], ALLW)] + ALLW, ALLW + [call("M0")], ALLW + [call("M1")])]),
